@@ -457,7 +457,7 @@ theorem parse_items_inv (names : Nat → List Char) (srcLen : Nat) (ow : Word) :
           have hlen : stoks.length = (dataWords s).length := by
             rw [forall₂_length hms, List.length_map]
           rcases Nat.lt_trichotomy (k + s.size) 65535 with hlt | heq | hgt
-          · obtain ⟨st', hr, a1, a2, a3, lines, a4, a5⟩ :=
+          · obtain ⟨st', hr, a1, a2, a3, lines, a4, a5, _, _⟩ :=
               bytes_reaches srcLen (dataWords s) stoks rtoks st tblX hms (by rw [hline, ← h3]; omega)
             have hf : fuelX = (fuelX - (dataWords s).length) + (dataWords s).length := by omega
             rw [hf, hr (fuelX - (dataWords s).length)] at hX
@@ -473,7 +473,7 @@ theorem parse_items_inv (names : Nat → List Char) (srcLen : Nat) (ow : Word) :
             | cons b bs =>
               rw [hd] at hms h3
               simp only [List.length_cons] at h3
-              obtain ⟨air', e1, e2, lines, e3, e4⟩ :=
+              obtain ⟨air', e1, e2, lines, e3, e4, _⟩ :=
                 bytes_final srcLen bs b stoks st tblX fuelX hms (by omega) hfX
               rw [e1] at hX
               simp only [Prod.mk.injEq, Res.ok.injEq] at hX
